@@ -40,10 +40,11 @@ META = {
         "metadata flag carried only by non-coercing fields; for fields flagged merge_topmatter every successful path of an update ends with the merged dict "
         "as the last store. "
         "R4: config objects are written only by validators (own instance), by merge_file_level or the helpers it hands its copy to (on the copy taken once "
-        "before the loop and returned; the global parameter is never written, validated against or passed to a writer), and inside mutate+restore-in-finally "
+        "before the loop through the validating constructor - copy()/dataclasses.replace, or a deep copy; a shallow copy.copy shares every mutable value with the global object and is a violation - and returned; the global parameter is never written, validated against or passed to a writer), and inside mutate+restore-in-finally "
         "brackets; a field mutated in place inside such a bracket gets a freshly built container from its validator on every accepting path, so copy() never "
         "shares it with the global object; merged dicts are new dicts with the front-matter operand last; only sphinx_ext.main.create_myst_config binds env.myst_config. "
-        "R5: the handler of the validation try emits exactly one MD_TOPMATTER warning, reaches the next update without storing the rejected value and, when the raw "
+        "R5: every path through one update passes validate_field or a topmatter warning (no key is dropped silently depending on its value or name); "
+        "the handler of the validation try emits exactly one MD_TOPMATTER warning, reaches the next update without storing the rejected value and, when the raw "
         "value was stored before validation or a validator may store before rejecting, re-stores on every path a value computed from the incoming configuration "
         "(or the copy), not some other default. "
         "R6: __post_init__ calls validate_fields unconditionally; validate_fields applies validate_field to the current value of every field on every iteration "
@@ -816,7 +817,9 @@ def _origin_seeds(f: FunctionInfo, obj: str) -> set[str]:
             v = n.value
             if isinstance(v, ast.Call) and isinstance(v.func, ast.Attribute) and v.func.attr == "copy" and isinstance(v.func.value, ast.Name):
                 seeds.add(v.func.value.id)
-            elif isinstance(v, ast.Call) and (dotted(v.func) or "").rsplit(".", 1)[-1] in ("replace", "copy", "deepcopy") and v.args and isinstance(v.args[0], ast.Name):
+            elif isinstance(v, ast.Call) and v.args and isinstance(v.args[0], ast.Name) and (
+                (dotted(v.func) or "").rsplit(".", 1)[-1] in ("replace", "copy", "deepcopy") or f.module.resolve(dotted(v.func) or "") in ("copy.copy", "copy.deepcopy", "dataclasses.replace")
+            ):
                 seeds.add(v.args[0].id)
     return seeds
 
@@ -1539,6 +1542,49 @@ def r5_invalid_value_path(corpus: Corpus, rep: Report, tier: str):
                 rep.violation("C13.R5", k, site, "; ".join(problems))
             else:
                 rep.ok("C13.R5", k, site, f"one MD_TOPMATTER warning, then the next update; {note}")
+    # no update is dropped silently: every path through one update passes validate_field or a warning
+    mcfg = get_cfg(mfl)
+    mwarn = mfl.params[2]
+
+    def has_call(node, pred) -> bool:
+        if isinstance(node, tuple) or isinstance(node, str):
+            return False
+        exprs = [node.test] if isinstance(node, (ast.If, ast.While)) else [node.iter] if isinstance(node, ast.For) else [i.context_expr for i in node.items] if isinstance(node, ast.With) else [] if isinstance(node, ast.Try) else [node]
+        return any(isinstance(c, ast.Call) and pred(c) for e in exprs for c in ast.walk(e))
+
+    for us in sites:
+        U = us.U
+        ucfg = get_cfg(U)
+        in_mfl = us.call if us.via is None else us.via[1] if us.via[0].fq == mfl.fq else None
+        k = f"{mfl.fq}|every update is validated or reported"
+        problems = []
+        witness = None
+        if in_mfl is not None:
+            hdr = mcfg.loops.get(mcfg.stmt_of(in_mfl))
+            if hdr is None:
+                raise Unsupported("merge_file_level: the per-update loop was not found")
+            point = mcfg.stmt_of(in_mfl)
+            stop_ok = lambda n: n is point or has_call(n, lambda c: isinstance(c.func, ast.Name) and c.func.id == mwarn)  # noqa: E731
+            if mcfg.paths_avoiding(("T", hdr), hdr, stop_ok):
+                # name the branch that skips
+                skips = [n for n in mfl.local_nodes() if isinstance(n, ast.Continue) and mcfg.loops.get(n) is hdr and mcfg.paths_avoiding(("T", hdr), n, stop_ok)]
+                witness = skips[0] if skips else hdr
+                g = [fact_ for fact_ in mcfg.guards(witness)] if skips else []
+                problems.append("an update can reach the next one without being validated and without a warning" + (f" (skipped under `{short(g[-1][0], 50)}`)" if g else ""))
+        if us.via is not None:
+            vpoint = ucfg.stmt_of(us.call)
+            if ucfg.paths_avoiding("ENTRY", "EXIT", lambda n: n is vpoint or has_call(n, lambda c: isinstance(c.func, ast.Name) and c.func.id == us.warn)):
+                problems.append(f"{U.qualname} can return without validating the value and without a warning")
+                witness = witness or U.node
+        if problems:
+            rep.violation(
+                "C13.R5",
+                k,
+                (mfl if witness is None or in_mfl is not None and witness is not U.node else U).module.site(witness) if witness is not None else mfl.site(),
+                "; ".join(problems) + ": a front-matter key is dropped silently depending on its value or name - the same value set globally is validated (accepted and normalised, or rejected with an error)",
+            )
+        else:
+            rep.ok("C13.R5", k, mfl.module.site(in_mfl) if in_mfl is not None else U.site(), "every path through an update passes validate_field or a topmatter warning")
     rep.expect_min("C13.R5", 1, "the handler of the validation try in merge_file_level")
 
 
@@ -2681,9 +2727,28 @@ def _copy_locals(mfl: FunctionInfo) -> tuple[str, set[str]]:
                         cands.setdefault(x.id, []).append(n.value)
     out = set()
     for name, vals in cands.items():
-        if all(isinstance(v, ast.Call) and isinstance(v.func, ast.Attribute) and v.func.attr == "copy" and isinstance(v.func.value, ast.Name) and v.func.value.id in ({gparam} | out) for v in vals):
+        if all(_copy_kind(mfl, v, {gparam} | out) is not None for v in vals):
             out.add(name)
     return gparam, out
+
+
+def _copy_kind(f: FunctionInfo, v: ast.expr, sources: set[str]) -> str | None:
+    """How ``v`` duplicates one of the config objects named in ``sources``: 'validating' (copy() / dc.replace: the
+    constructor runs, every coercing validator stores a fresh container), 'deep' (copy.deepcopy) or 'shallow'
+    (copy.copy: a distinct object that shares every mutable field value)."""
+    if not isinstance(v, ast.Call):
+        return None
+    if isinstance(v.func, ast.Attribute) and v.func.attr == "copy" and isinstance(v.func.value, ast.Name) and v.func.value.id in sources:
+        return "validating"
+    full = f.module.resolve(dotted(v.func) or "")
+    if v.args and isinstance(v.args[0], ast.Name) and v.args[0].id in sources:
+        if full == "dataclasses.replace":
+            return "validating"
+        if full == "copy.deepcopy":
+            return "deep"
+        if full == "copy.copy":
+            return "shallow"
+    return None
 
 
 @rule("C13.R4")
@@ -2759,6 +2824,19 @@ def r4_config_writers(corpus: Corpus, rep: Report, tier: str):
     if not copy_assigns:
         rep.violation("C13.R4", f"{mfl.fq}|copy of the global config", mfl.site(), f"merge_file_level never copies `{gparam}`: updates are applied to the global configuration itself")
     for n in copy_assigns:
+        kind_ = _copy_kind(mfl, n.value, {gparam} | copies)
+        k2 = f"{mfl.fq}|copy of the global config|owns its mutable values"
+        if kind_ == "shallow":
+            rep.violation(
+                "C13.R4",
+                k2,
+                mod.site(n),
+                f"`{short(n, 50)}` is a shallow copy: the per-document config is a distinct object but shares every mutable field value (the enable_extensions set, the dictionaries) "
+                "with the global configuration - copy()/dataclasses.replace re-run the validators, which store fresh containers - so an in-place mutation of a field of the "
+                "document's config (figure-md adds 'html_image' and restores by re-binding) changes the global configuration of every later document",
+            )
+        else:
+            rep.ok("C13.R4", k2, mod.site(n), f"{kind_} copy")
         k = f"{mfl.fq}|copy of the global config|taken once"
         if cfg.loops.get(n) is not None:
             rep.violation("C13.R4", k, mod.site(n), "the copy is re-taken inside a loop: updates applied in earlier iterations are lost")
@@ -3595,4 +3673,24 @@ def mutants(corpus: Corpus):
     tr = find_node(f, lambda n: isinstance(n, ast.Try) and "read_topmatter" in unparse(n))
     if wr is not None and tr is not None and wr in f.node.body and tr in f.node.body and wr.lineno > tr.lineno:
         out.append(Mutant("c13-file-level-config-stored-before-the-merge", "C13.R13", sp.rel, _splice_many(sp.src, [(tr, _seg(sp, wr) + "\n" + _indent(sp, tr) + _seg(sp, tr)), (wr, "pass")]), expect="before it is final"))
+    # ---- round 12: an update dropped silently / a shallow copy of the global config
+    mfl = main.func("merge_file_level")
+    us_ = [x for x in update_sites(corpus) if x.U.fq == mfl.fq]
+    if us_:
+        us0 = us_[0]
+        cfg_ = get_cfg(mfl)
+        anchor = next((st for st in obj_stores(mfl, us0.obj) if st.value is not None and isinstance(st.value, ast.Name) and st.value.id == us0.val and st.node.lineno < us0.call.lineno), None)
+        st0 = enclosing_stmt_of(anchor.node) if anchor is not None else None
+        if st0 is not None:
+            ind = _indent(main, st0)
+            out.append(Mutant("c13-null-front-matter-values-skipped-silently", "C13.R5", main.rel, splice(main.src, st0, f"if {us0.val} is None:\n{ind}    continue\n{ind}{_seg(main, st0)}"), expect="validated or reported"))
+            out.append(Mutant("c13-empty-front-matter-values-skipped-silently", "C13.R5", main.rel, splice(main.src, st0, f"if not {us0.val}:\n{ind}    continue\n{ind}{_seg(main, st0)}"), expect="validated or reported"))
+        gl = find_node(mfl, lambda n: isinstance(n, ast.If) and any(_metadata_flag(t, us0.fieldvar) == "global_only" and p for t, p in flow_facts(n.test, True)))
+        if gl is not None:
+            wst = next((s_ for s_ in gl.body if isinstance(s_, ast.Expr) and isinstance(s_.value, ast.Call) and isinstance(s_.value.func, ast.Name) and s_.value.func.id == mfl.params[2]), None)
+            if wst is not None:
+                out.append(Mutant("c13-global-only-key-dropped-without-warning", "C13.R5", main.rel, splice(main.src, wst, "pass"), expect="validated or reported"))
+    cp = find_node(mfl, lambda n: isinstance(n, ast.Assign) and _copy_kind(mfl, n.value, {mfl.params[0]}) == "validating")
+    if cp is not None:
+        out.append(Mutant("c13-per-document-config-is-a-shallow-copy", "C13.R4", main.rel, splice(main.src, cp, f"import copy as _copy_mod\n{_indent(main, cp)}{unparse(cp.targets[0])} = _copy_mod.copy({mfl.params[0]})"), expect="owns its mutable values"))
     return out
